@@ -76,7 +76,7 @@ class C16(Engine):
         'stub': ['byte channel that closes after k bytes (vsim/wire.py)'],
     }
     tiers = {
-        'quick': dict(runs=480, wall_cap=150, chunk=3, minimise_s=40),
+        'quick': dict(runs=1600, wall_cap=150, chunk=4, minimise_s=40),
         'thorough': dict(runs=40000, wall_cap=3300, chunk=8, minimise_s=120),
     }
 
